@@ -339,13 +339,14 @@ def detourPre (junk : List (Nat × Layer)) (d : Disk) (g : Nat) : List Ev :=
   | none => []
   | some j => [.tblLoadable g (if d.comps.isEmpty then restrictTo (applyMuts [] (walMuts d.wal)) j else j)]
 
+def detourFor (junk : List (Nat × Layer)) (d : Disk) : Ev → List Ev
+  | .tblUnlinkPart g true => detourPre junk d g
+  | .tblRmdir g => detourPre junk d g
+  | _ => []
+
 def detour (junk : List (Nat × Layer)) : Disk → List Ev → List Ev
   | _, [] => []
-  | d, e :: es =>
-    (match e with
-      | .tblUnlinkPart g true => detourPre junk d g
-      | .tblRmdir g => detourPre junk d g
-      | _ => []) ++ e :: detour junk (applyEv d e) es
+  | d, e :: es => detourFor junk d e ++ e :: detour junk (applyEv d e) es
 
 /-- the calls `Open` makes on this disk, in order (`junk`: see `detour`) -/
 def recoverEvents (d : Disk) (junk : List (Nat × Layer) := []) : List Ev :=
